@@ -86,16 +86,17 @@ CountOps(QS, MS) == {[op |-> "count", q |-> q, m |-> m] : q \in QS, m \in MS}
 (* concrete values, the specification owns which cells exist.              *)
 (***************************************************************************)
 BadKinds == {"int", "int0", "float", "float0", "bool", "bool0", "bytes", "bytes0", "none",
-             "list", "list0", "dict", "dict0", "str", "str0"}
-TruthyKinds == {"int", "float", "bool", "bytes", "list", "dict", "str"}
+             "list", "list0", "dict", "dict0", "str", "str0",
+             "numstr", "numbytes"}          \* text / bytes that LOOK like a number ("12.5", b"42"): still not numbers
+TruthyKinds == {"int", "float", "bool", "bytes", "list", "dict", "str", "numstr", "numbytes"}
 Slots == {"time", "measurement", "tagkey", "tagvalue", "fieldkey", "fieldvalue",
           "tagkey_none", "fieldkey_none"}          \* a wrongly typed key whose VALUE is None (a value check that skips None must not skip the key)
 WrongFor(slot) ==
   CASE slot = "time" -> BadKinds
-    [] slot = "measurement" -> BadKinds \ {"str", "str0"}
+    [] slot = "measurement" -> BadKinds \ {"str", "str0", "numstr"}
     [] slot \in {"tagkey", "fieldkey", "tagkey_none", "fieldkey_none"} -> {"int", "int0", "float", "float0", "bool", "bool0", "bytes", "bytes0", "none"}
-    [] slot = "tagvalue" -> BadKinds \ {"str", "str0", "none"}
-    [] slot = "fieldvalue" -> {"bool", "bool0", "bytes", "bytes0", "list", "list0", "dict", "dict0", "str", "str0"}
+    [] slot = "tagvalue" -> BadKinds \ {"str", "str0", "numstr", "none"}
+    [] slot = "fieldvalue" -> {"bool", "bool0", "bytes", "bytes0", "list", "list0", "dict", "dict0", "str", "str0", "numstr", "numbytes"}
 StaticEntries   == {"update_static", "update_all_static", "handle_update_static"}
 CallableEntries == {"update_callable", "update_all_callable", "handle_update_callable", "update_callable_inplace"}
 KindsFor(entry, slot) ==
